@@ -400,7 +400,7 @@ def repair_dna(dna_sequence, accessor, start_index, observed_length, vt_check=No
             location += 1
         else:
             detected_count += 1
-            split_sequences[-1] = split_sequences[-1][: - observed_length + 1]
+            split_sequences[-1] = split_sequences[-1][: len(split_sequences[-1]) - observed_length + 1]
             vertex_index = dna_to_number(dna_sequence[location + 1: location + observed_length + 1], is_string=False)
             split_sequences.append(nucleotides[vertex_index % 4])
             index_markers.append(index_queue[location - observed_length: location])
